@@ -398,6 +398,10 @@ func (g *fastGenerator) fieldItem(field *protogen.Field, fieldname string, messa
 			buf := `dAtA[iNdEx:postIndex]`
 			msgname := g.noStarOrSliceType(field)
 			g.P(`v := &`, msgname, `{}`)
+			// a repeated occurrence of the member that is already set merges into it
+			g.P(`if o, ok := x.`, fieldname, `.(*`, field.GoIdent, `); ok && o != nil && o.`, field.GoName, ` != nil {`)
+			g.P(`v = o.`, field.GoName)
+			g.P(`}`)
 			g.decodeMessage("v", buf, field.Message)
 			g.P(`x.`, fieldname, ` = &`, field.GoIdent, `{v}`)
 
@@ -675,7 +679,10 @@ func (g *fastGenerator) unmarshalMapField(varName string, field *protogen.Field)
 		g.P(`return `, protoifacePkg.Ident("UnmarshalOutput"), "{NoUnkeyedLiterals: input.NoUnkeyedLiterals, Flags: input.Flags},", g.Ident("io", `ErrUnexpectedEOF`))
 		g.P(`}`)
 		buf := `dAtA[iNdEx:postmsgIndex]`
+		// a value field occurring again inside the same entry merges into the value
+		g.P(`if `, varName, ` == nil {`)
 		g.P(varName, ` = &`, g.noStarOrSliceType(field), `{}`)
+		g.P(`}`)
 		g.decodeMessage(varName, buf, field.Message)
 		g.P(`iNdEx = postmsgIndex`)
 	case protoreflect.BytesKind:
